@@ -193,3 +193,19 @@ func hashPts(h mon.H, ps []exact.P) mon.H {
 	}
 	return h.I(int64(len(ps)))
 }
+
+func shapeBox(s *exact.Shape) (mn, mx exact.P) {
+	var pts []exact.P
+	switch s.Kind {
+	case exact.KPoly:
+		pts = s.Ext
+	default:
+		pts = s.Pts
+	}
+	mn, mx = pts[0], pts[0]
+	for _, p := range pts {
+		mn.X, mx.X = min(mn.X, p.X), max(mx.X, p.X)
+		mn.Y, mx.Y = min(mn.Y, p.Y), max(mx.Y, p.Y)
+	}
+	return
+}
